@@ -94,6 +94,8 @@ def graphs(tier, seed):
         for ms in F.edge_multisets(len(cands), 2):
             for vo in ([[0, 1, 2]] if tier == "quick" else [[0, 1, 2], [2, 0, 1]]):
                 out.append(("shape", {"types": types, "ms": ms, "vo": vo}))
+            if any(t in ("R2", "R3") for t in types) and any(cands[k]["type"] == "lm" for k in ms):
+                out.append(("shape", {"types": types, "ms": ms, "vo": [0, 1, 2], "zero_points": True}))
     sizes = (3, 6) if tier == "quick" else (3, 6, 12, 24)
     noises = (("zero", 0.0), ("sin", 0.02)) if tier == "quick" else (("zero", 0.0), ("sin", 0.02), ("alt", 0.02))
     for kind in ("SE2", "SE3"):
@@ -101,6 +103,8 @@ def graphs(tier, seed):
             for n in sizes:
                 for nz, amp in noises:
                     out.append(("slam", {"kind": kind, "fam": fam, "n": n, "noise": nz, "nz": amp}))
+            # object reuse in the original frame only: a vertex's pose object IS the measurement object of its incoming edge
+            out.append(("slam", {"kind": kind, "fam": fam, "n": 3, "noise": "sin", "nz": 0.02, "share": True}))
             # landmarks initialised hundreds of units away: one exact (large) step brings them back, in every frame
             out.append(("slam", {"kind": kind, "fam": fam, "n": 6, "noise": "sin", "nz": 0.02, "lm_far": True}))
     return out
@@ -110,9 +114,19 @@ def spec_of(gdesc, seed):
     typ, d = gdesc
     if typ == "shape":
         cands = F.candidate_edges(d["types"], seed, custom=False)
-        return F.make_spec(d["types"], seed, d["ms"], [True, False, False], d["vo"], None, None, cands=cands)
+        sp = F.make_spec(d["types"], seed, d["ms"], [True, False, False], d["vo"], None, None, cands=cands)
+        if d.get("zero_points"):
+            for v in sp["vertices"]:
+                if v["kind"] in ("R2", "R3") and not v["fixed"]:
+                    v["pose"] = [0.0] * len(v["pose"])  # a landmark exactly at the world origin
+        return sp
     dt, dr = (0.3, 0.2) if d["kind"] == "SE2" else (0.1, 0.05)
     spec, _ = SF.make(d["fam"], d["kind"], d["n"], "alt", d["noise"], dt, dr, d["nz"], seed)
+    if d.get("share"):
+        # vertex 1 starts exactly at the dead-reckoned measurement of edge 0 -> 1 and IS that object
+        spec["vertices"][1]["pose"] = list(spec["edges"][0]["z"]) if spec["vertices"][0]["pose"][: len(spec["edges"][0]["z"])] == [0.0] * 0 else spec["vertices"][1]["pose"]
+        spec["edges"][0]["z"] = list(spec["vertices"][1]["pose"])
+        spec["share"] = [["vertex", 1, "estimate", 0]]
     if d.get("lm_far"):
         for k, v in enumerate(spec["vertices"]):
             if v["id"] >= 1000:
